@@ -806,6 +806,20 @@ class CDSInterval(AbstractFeatureInterval):
         offset = phase.to_frame().value
         return offset
 
+    def _first_codon_is_on_chunk(self) -> bool:
+        """
+        Is the first codon of this CDS also the first codon found on the sequence chunk? Always true if this CDS
+        is not chunk-relative.
+        """
+        if not self.is_chunk_relative:
+            return True
+        chunk_codon = next(self.scan_chunk_relative_codon_locations(), None)
+        chromosome_codon = next(self.scan_chromosome_codon_locations(), None)
+        if chunk_codon is None or chromosome_codon is None:
+            return True
+        lifted_codon = chunk_codon.lift_over_to_first_ancestor_of_type(SequenceType.CHROMOSOME)
+        return lifted_codon.start == chromosome_codon.start and lifted_codon.end == chromosome_codon.end
+
     @lru_cache(maxsize=2)
     def translate(
         self,
@@ -838,12 +852,18 @@ class CDSInterval(AbstractFeatureInterval):
             Codon is untranslatable and allow_unknown_translation is False
         """
         seq = str(self.extract_sequence()).upper()
+        # the start codon rule applies to the first codon of this CDS, which a sequence chunk may have cut off
+        first_codon_is_visible = self._first_codon_is_on_chunk()
         translated_seq = []
         for i in range(0, len(seq), 3):
             codon_str = seq[i : i + 3]
 
             codon = Codon(codon_str)
-            if i == 0 and codon.is_start_codon_in_specific_translation_table(translation_table):
+            if (
+                i == 0
+                and first_codon_is_visible
+                and codon.is_start_codon_in_specific_translation_table(translation_table)
+            ):
                 translated_seq.append(Codon("ATG").translate())
             else:
                 if strict and not codon.is_strict_codon:
